@@ -148,6 +148,16 @@ def run_case(case, res=None):
         if not a.get('ref') and a.get('derived') is None and unwrap(D, a['type']) is not None:
             a['derived'] = 'self.%s = 1;' % a['name']
             log = list(log) + ['identifying attribute %s.%s made derived' % (c['kl'], a['name'])]
+    if case.get('ensure') and case.get('base') != 'simple_model':
+        # the scope clauses need something to decide on: an enumeration inside the component, a user type in another one
+        log = list(log)
+        if not any(t_['kind'] == 'enum' for t_ in D['types']):
+            D['types'].append({'name': 'EnumZ', 'kind': 'enum', 'parent': ['pkg', 1], 'enumerators': ['Z_b', 'Z_a', 'Z_c']})
+            log.append('enumeration EnumZ added inside the component')
+        if not any(not (bpmodel.is_global(D, t_['parent']) or bpmodel.contained_in(D, t_['parent'], ['comp', 0])) for t_ in D['types']):
+            D['components'].append({'name': 'Elsewhere', 'parent': ['pkg', 0]})
+            D['types'].append({'name': 'UdtElse', 'kind': 'udt', 'base': 'integer', 'parent': ['comp', len(D['components']) - 1]})
+            log.append('user type UdtElse added in another component')
     info = dict(case, edits_applied=log)
 
     def fail(bucket, detail):
@@ -238,7 +248,8 @@ def run(ctx):
                                    'order': st.lists(st.integers(0, 10 ** 6), min_size=0, max_size=8),
                                    'via_main': st.integers(0, 5).map(lambda k: k == 0),
                                    'base': st.sampled_from(['synth', 'synth', 'synth', 'simple_model']),
-                                   'derive_id': st.one_of(st.none(), st.none(), st.integers(0, 9))})
+                                   'derive_id': st.one_of(st.none(), st.none(), st.integers(0, 9)),
+                                   'ensure': st.booleans()})
     hyp_run(ctx, res, strat, body, ctx.pick(400, 2500), label='diagrams')
     return res
 
